@@ -4,7 +4,7 @@
 
 /* inputs (in_*: what a native replay needs to rebuild the configuration through the public API) */
 kkey_t in_key, in_gk; uint32_t in_ic, in_mask, in_ebc; unsigned in_n; unsigned in_c[XV_L];
-int in_kpos, in_gpos; _Bool in_collide, in_acquire;
+int in_kpos, in_gpos; _Bool in_collide, in_acquire; int in_nt, in_op;   /* in_op: 1 do_extract, 2 erase, 3 extract, 4 do_get_or_emplace, 5 try_get_value */
 
 static void xv_retry_cut(void);
 #define XV_GOTO_RETRY xv_retry_cut()   /* `goto retry` after grow(): cut (ends with assume(false)), see h_emplace */
@@ -19,6 +19,10 @@ extern accessor rd_res0; extern _Bool rd_have_state1; extern uint64_t rd_state1_
 #else
 #define ACC_EQ(a, b) ((a).v == (b).v)
 #endif
+/* lock_bucket, INT mode: the spin loop is cut; nothing is carried from one attempt to the next */
+#define XV_HAVOC_LOCK (*block_p) = nondet_bool() ? &g_blk : 0; (*state_p) = nondet_u32() /* block, state (by-reference parameters); st, bucket_idx, bucket (a reference): declared inside */
+#define XV_INV_LOCK (lk_cas_ok_count == 0 && lk_stores == 0)
+extern unsigned lk_cas_ok_count, lk_stores;
 #define XV_HAVOC_RETRY rd_reset(); XV_ASSUME(xv_clock < ((uint64_t)1 << 62)) /* (model: fewer than 2^62 atomic accesses in all) state, item_count, i, acc, state2, delete_marker, extension: all declared inside the retry body */
 #define XV_INV_RETRY (ACC_EQ(*result_p, rd_res0))    /* (the havoc step restarts the iteration monitor: ghost only) */
 #define XV_HAVOC_CHAIN extension = POOL_ITEM(nondet_uint()); state = nondet_u32(); rd_chain_havoc() /* acc, state2: declared inside; result: written only on the path that returns */
@@ -46,6 +50,11 @@ static void havoc_cells(kcell_t* kc, vcell_t* vc, int node, _Bool occupied) {
 }
 static void build_state(int maxchain) {
   XV_ASSUME(NSLOT == bucket_item_count);
+#ifdef XV_NT
+  in_nt = 1;
+#else
+  in_nt = 0;
+#endif
   in_key = nondet_key(); in_gk = nondet_key(); in_value = nondet_val();
   in_mask = nondet_u32(); in_ebc = nondet_u32(); in_ic = nondet_u32(); in_n = nondet_uint();
   XV_ASSUME(in_mask == XV_MASK && in_ebc <= XV_NEB && in_ic <= NSLOT && in_n <= (unsigned)maxchain);
@@ -95,7 +104,7 @@ static void build_state(int maxchain) {
   XV_ASSUME(inv_B(g_B, maxchain));
   mon_prev_state = g_B->state; mon_version0 = BS_version(g_B->state);
   mon_bad_slot_store = mon_bad_state_step = mon_bad_item_store = mon_bad_order = mon_lock_dropped = 0;
-  for (int p = 0; p < POOL; ++p) mon_next_store_v0[p] = mon_unlinked_v0[p] = 0;
+  for (int p = 0; p < POOL; ++p) mon_next_store_v0[p] = mon_unlinked_v0[p] = mon_unlinked[p] = 0;
   mon_state_stores = mon_unlocks = mon_slot_stores = mon_head_stores = 0;
 }
 static _Bool other_unchanged(void) {
@@ -166,7 +175,7 @@ static void check_unchanged(struct pre s) {
 }
 
 void h_do_extract(void) {
-  build_state(XV_L);
+  build_state(XV_L); in_op = 1;
   accessor res = xv_acc_any(), res0 = res;
   struct pre s = snapshot();
   gp_may_throw = 1;
@@ -216,7 +225,7 @@ static void check_retire(struct pre s, _Bool r) {
 #endif
 }
 void h_erase(void) {
-  build_state(XV_L);
+  build_state(XV_L); in_op = 2;
   struct pre s = snapshot();
   mon_on = 1; _Bool r = vhm_erase(&g_map, in_key); mon_on = 0;
   XV_OBL("vhm.extract.iff_present", r == s.k.found);
@@ -230,7 +239,7 @@ void h_erase(void) {
   }
 }
 void h_extract(void) {
-  build_state(XV_L);
+  build_state(XV_L); in_op = 3;
   accessor acc = xv_acc_any();
   struct pre s = snapshot();
   mon_on = 1; _Bool r = vhm_extract(&g_map, in_key, &acc); mon_on = 0;
@@ -276,7 +285,7 @@ static void xv_retry_cut(void) {
   XV_ASSUME(0);
 }
 void h_emplace(void) {
-  build_state(XV_L);
+  build_state(XV_L); in_op = 4;
   in_acquire = nondet_bool();
   struct pre s = snapshot(); g_pre = s;
   factory_may_throw = 1; new_may_throw = 1; gp_may_throw = 1; grow_may_throw = 1; grow_calls = 0;
@@ -478,7 +487,7 @@ void h_get_int(void) {
  * the reader terminates within the shape bound (unwinding assertions = vhm.get.terminates) and answers like the abstract map. */
 _Bool in_midop; uint32_t in_marker;
 void h_get_seq(void) {
-  build_state(XV_L);
+  build_state(XV_L); in_op = 5;
   struct pre s = snapshot();
   in_midop = nondet_bool(); in_marker = nondet_u32();
   if (in_midop) { XV_ASSUME(in_marker >= 1 && in_marker <= in_ic); g_B->state = BS_set_delete_marker(BS_locked(g_B->state), in_marker); }
@@ -503,4 +512,82 @@ void h_get_seq(void) {
 #endif
   }
   XV_OBL("vhm.ops.frame", g_B->head == s.B0.head && look_eq(lookup(g_B, in_gk), s.g) && pool_ok(role0));    /* a reader writes nothing */
+}
+
+/* ------------------------------------------------------------------ lock_bucket under interference */
+unsigned lk_cas_ok_count, lk_stores; _Bool lk_on; bstate_t lk_expected, lk_desired; int lk_order;
+void h_lock_int(void) {
+#ifdef XV_INT
+  build_state(XV_L);
+  hash_t h = XV_HASH(in_key);
+  guarded_block blk = 0; bstate_t st = nondet_u32();
+  lk_cas_ok_count = 0; lk_stores = 0; lk_on = 1; env_on = 1;
+  bucket_t* b = vhm_lock_bucket_int(&g_map, h, &blk, &st);
+  env_on = 0; lk_on = 0;
+  XV_OBL("vhm.lock_bucket.acquired", b == g_B && blk == &g_blk);
+  XV_OBL("vhm.lock_bucket.acquired", lk_cas_ok_count == 1 && lk_stores == 0 && st == lk_expected && !BS_is_locked(lk_expected) && lk_desired == BS_locked(lk_expected));
+  XV_OBL("vhm.sync.acquire", XV_IS_ACQUIRE(lk_order));
+  XV_CANARY("lock_int.acquired");
+#endif
+}
+
+/* ------------------------------------------------------------------ do_grow: one old block (NB buckets) is rehashed into a block of 2*NB buckets */
+static _Bool new_bucket_ok(const bucket_t* B) {
+  uint32_t ic = BS_item_count(B->state);
+  if (BS_is_locked(B->state) || BS_delete_marker(B->state) != 0 || BS_version(B->state) != 0 || ic > NSLOT) return 0;
+  if (B->head != 0 && ic != NSLOT) return 0;
+  const extension_item* e = B->head;
+  for (int q = 0; q < XV_L + 1; ++q) if (e) { if (q >= XV_L || pool2_index(e) >= POOL) return 0; e = e->next; }
+  return 1;
+}
+static int bucket_size(const bucket_t* B) {
+  int n = (int)BS_item_count(B->state); const extension_item* e = B->head;
+  for (int q = 0; q < XV_L + 1; ++q) if (e) { n++; e = e->next; }
+  return n;
+}
+void h_do_grow(void) {
+  build_state(XV_L);
+  in_ebc2 = nondet_u32(); XV_ASSUME(in_ebc2 <= XV_NEB && in_ebc2 * XV_EIC >= in_n);     /* the new pool is not smaller than what the old chains hold */
+  struct pre s = snapshot();
+  /* every item of the old bucket hashes to it */
+  for (int i = 0; i < NSLOT; ++i) if ((uint32_t)i < in_ic) XV_ASSUME((TR_rehash(hash, g_B->key[i]) & XV_MASK) == (hash_t)(g_B - g_bk));
+  for (int p = 0; p < POOL; ++p) if (chain0[p]) XV_ASSUME((TR_rehash(hash, POOL_ITEM_C(p)->key) & XV_MASK) == (hash_t)(g_B - g_bk));
+  g_map.resize_lock = 1;                                  /* grow() took it */
+  alloc_block_may_fail = 1; alloc_block_calls = 0; blk_retired_count = 0;
+  bstate_t st0 = g_B->state;
+  vhm_do_grow_real(&g_map);
+  XV_OBL("vhm.grow.resize_lock", g_map.resize_lock == 0 && alloc_block_calls == 1 && alloc_block_arg == 2 * (XV_MASK + 1));
+  if (xv_threw) {
+    XV_OBL("vhm.grow.conserves", xv_threw == XV_EXC_std__bad_alloc && g_map.data_block == &g_blk && blk_retired_count == 0);
+    check_unchanged(s);
+    XV_CANARY("do_grow.bad_alloc");
+    return;
+  }
+  XV_OBL("vhm.grow.conserves", g_map.data_block == &g_blk2 && blk_retired_count == 1 && blk_retired == &g_blk);
+  /* the old bucket stays locked for ever (late lockers spin until they reload data_block) and keeps its contents */
+  XV_OBL("vhm.grow.conserves", g_B->state == BS_locked(st0) && g_B->head == s.B0.head && look_eq(lookup(g_B, in_gk), s.g));
+  /* an arbitrary key: it is in the new block exactly where a lookup will search it, with the value it had, and nowhere else */
+  { hash_t hg =
+#ifdef XV_NT
+      s.g.found ? XV_HASH(in_gk) : nondet_u64();
+#else
+      XV_HASH(in_gk);
+#endif
+    int total = 0;
+    for (int t = 0; t < 2 * NB; ++t) {
+      struct look g1 = lookup(&g_bk2[t], in_gk);
+      if ((hash_t)t == (hg & g_blk2.mask)) XV_OBL("vhm.grow.conserves", look_eq(g1, s.g)); else XV_OBL("vhm.grow.conserves", !g1.found);
+      XV_OBL("vhm.grow.conserves", new_bucket_ok(&g_bk2[t]));
+      total += bucket_size(&g_bk2[t]);
+    }
+    XV_OBL("vhm.grow.conserves", total == s.size0);
+  }
+  /* new pool: an item is in a chain or in its free list, never both, never twice */
+  for (int p = 0; p < POOL; ++p) if ((uint32_t)(p / XV_EIC) < in_ebc2) {
+    int places = 0; const extension_item* e;
+    for (int t = 0; t < 2 * NB; ++t) { e = g_bk2[t].head; for (int q = 0; q < XV_L + 1; ++q) if (e) { if (e == POOL2_ITEM_C(p)) places++; e = e->next; } }
+    e = g_eb2[p / XV_EIC].head; for (int q = 0; q < XV_EIC + 1; ++q) if (e) { if (e == POOL2_ITEM_C(p)) places++; e = e->next; }
+    XV_OBL("vhm.grow.conserves", places == 1);
+  }
+  if (in_n > 0) XV_CANARY("do_grow.with_chain"); else XV_CANARY("do_grow.array_only");
 }
